@@ -91,9 +91,13 @@ func stripCRLF(b []byte) []byte {
 }
 
 // BodyEvent calls SetBody on the real code and projects the result.
-func BodyEvent(text string, desc interface{}) rec.Event {
+func BodyEvent(text string, desc interface{}) rec.Event { return BodyEventPrior(text, desc, 0) }
+
+// BodyEventPrior: prior = 0 sets the body of a fresh message, 1 of a message that already had another body set, 2 of a
+// message that was parsed from bytes (and so already has a body and a Body header).
+func BodyEventPrior(text string, desc interface{}, prior int) rec.Event {
 	ev := rec.Event{"op": "Body", "desc": desc, "inlen": len(text), "err": false, "crlfOnly": false, "maxLine": 0, "textPreserved": false,
-		"bodyHeader": -1, "outlen": 0, "bodyAccessor": false}
+		"bodyHeader": -1, "bodyHeaderWire": -1, "outlen": 0, "bodyAccessor": false, "prior": prior}
 	func() {
 		defer func() {
 			if p := recover(); p != nil {
@@ -101,6 +105,22 @@ func BodyEvent(text string, desc interface{}) rec.Event {
 			}
 		}()
 		m := fbb.NewMessage(fbb.Private, "LA5NTA")
+		switch prior {
+		case 1:
+			m.SetBody("an earlier body of another length\r\nsecond line\r\n")
+		case 2:
+			pm := fbb.NewMessage(fbb.Private, "LA5NTA")
+			pm.AddTo("LA1B")
+			pm.SetSubject("parsed first")
+			pm.SetBody("the body this message had when it was read\r\n")
+			if b, err := pm.Bytes(); err == nil {
+				m = new(fbb.Message)
+				if err := m.ReadFrom(bytes.NewReader(b)); err != nil {
+					ev["err"], ev["errtext"] = true, "harness: "+err.Error()
+					return
+				}
+			}
+		}
 		if err := m.SetBody(text); err != nil {
 			ev["err"], ev["errtext"] = true, err.Error()
 			return
@@ -115,6 +135,18 @@ func BodyEvent(text string, desc interface{}) rec.Event {
 		stored := raw[i+4:]
 		ev["outlen"] = len(stored)
 		ev["bodyHeader"] = m.BodySize()
+		// the Body header as serialised: exactly one line, its value
+		wire, nb := -2, 0
+		for _, line := range strings.Split(string(raw[:i]), "\r\n") {
+			if strings.HasPrefix(strings.ToLower(line), "body:") {
+				nb++
+				fmt.Sscanf(strings.TrimSpace(line[5:]), "%d", &wire)
+			}
+		}
+		if nb != 1 {
+			wire = -2
+		}
+		ev["bodyHeaderWire"] = wire
 		crlf, maxLine, cur := true, 0, 0
 		for k, c := range stored {
 			cur++
@@ -203,7 +235,7 @@ func MainBody(args []string) int {
 			return err
 		}
 		text := expand(s, rng)
-		w.Write(nil, []rec.Event{BodyEvent(text, s.Shape)})
+		w.Write(nil, []rec.Event{BodyEventPrior(text, s.Shape, n%3)})
 		if len(text) < 5000 {
 			remember(text, s.Shape)
 			if n%3 == 0 {
@@ -237,7 +269,7 @@ func MainBody(args []string) int {
 			}
 			sb.WriteString([]string{"\n", "\r\n", "\n", ""}[rng.Intn(4)])
 		}
-		w.Write(nil, []rec.Event{BodyEvent(sb.String(), "free-form")})
+		w.Write(nil, []rec.Event{BodyEventPrior(sb.String(), "free-form", i%3)})
 	}
 	fmt.Printf("{\"traces\":%d,\"shapes\":%d}\n", w.Count(), n)
 	return 0
